@@ -134,41 +134,92 @@ def rule_r1_r2(ctx, rep):
     rep.floor("registry writes", 2)
 
 
-def discard_sites(ctx, fi):
-    """(node, discarded path) for remove_child(X) calls and child-slot overwrites"""
+def _children_alias(ctx, fi):
+    """local names bound to some node's child list: name -> owner expression"""
     nm = ctx.world.nm
+    out = {}
+    for n in ast.walk(fi.node):
+        if isinstance(n, ast.Assign) and len(n.targets) == 1 and isinstance(n.targets[0], ast.Name) and isinstance(n.value, ast.Attribute) \
+                and nm.canon(n.value.attr) == "_children":
+            out[n.targets[0].id] = n.value.value
+    return out
+
+
+def discard_sites(ctx, fi):
+    """(node, discarded path, how) for calls that remove a child from its parent (remove_child itself or any function
+    whose tree-effect summary says so) and for child-slot overwrites"""
+    from ..treefx import TreeFx
+    nm = ctx.world.nm
+    w = ctx.world
+    fx = ctx.get("treefx", lambda: TreeFx(w))
+    ft = w.types(fi)
+    alias = _children_alias(ctx, fi)
     out = []
     for n in ast.walk(fi.node):
-        if isinstance(n, ast.Call) and n.args and _resolves_to(ctx, fi, n, NODE_Q + ".remove_child"):
-            tg = _resolves_to(ctx, fi, n, NODE_Q + ".remove_child")
-            am = ctx.world.arg_map(tg, n)
-            a = am.get("child") or (list(am.values())[-1] if am else None)
-            p = _path(a) if a is not None else None
-            if p:
-                out.append((n, p, "remove"))
+        if isinstance(n, ast.Call):
+            for tg in w.resolve_call(ft, n):
+                if tg.func is None or tg.kind == "class" or tg.func.qname == fi.qname:
+                    continue  # a recursive call obeys the pairing rules inductively
+                am = w.arg_map(tg, n)
+                for e in fx.tree_effects(tg.func):
+                    a = None
+                    if e[0] == "remove":
+                        a = am.get(e[2])
+                    elif e[0] == "detach":
+                        a = am.get(e[1])
+                    p = _path(a) if a is not None else None
+                    if p and not any(x[0] is n and x[1] == p for x in out):
+                        out.append((n, p, "remove"))
         if isinstance(n, ast.Assign):
             for t in n.targets:
-                if isinstance(t, ast.Subscript) and isinstance(t.value, ast.Attribute) and nm.canon(t.value.attr) == "_children":
-                    s = t.slice
-                    if isinstance(s, ast.Call) and isinstance(s.func, ast.Attribute) and s.func.attr == "index" and s.args:
-                        p = _path(s.args[0])
+                if isinstance(t, ast.Subscript) and ((isinstance(t.value, ast.Attribute) and nm.canon(t.value.attr) == "_children")
+                                                     or (isinstance(t.value, ast.Name) and t.value.id in alias)):
+                    sl = t.slice
+                    if isinstance(sl, ast.Name):
+                        # position = L.index(X) earlier
+                        var = sl.id
+                        for a in ast.walk(fi.node):
+                            if isinstance(a, ast.Assign) and any(isinstance(x, ast.Name) and x.id == var for x in a.targets):
+                                sl = a.value
+                    if isinstance(sl, ast.Call) and isinstance(sl.func, ast.Attribute) and sl.func.attr in ("index", "child_index") and sl.args:
+                        p = _path(sl.args[0])
                         if p:
                             out.append((n, p, "overwrite"))
     return out
 
 
 def delete_sites(ctx, fi):
+    """(node, unregistered path, subtree included) for calls that unregister a node (delete_node_instance itself or any
+    function whose tree-effect summary says so)"""
+    from ..treefx import TreeFx
+    w = ctx.world
+    fx = ctx.get("treefx", lambda: TreeFx(w))
+    ft = w.types(fi)
     out = []
     for n in ast.walk(fi.node):
         if isinstance(n, ast.Call):
-            tg = _resolves_to(ctx, fi, n, NODE_Q + ".delete_node_instance")
-            if tg:
-                am = ctx.world.arg_map(tg, n)
+            tg0 = _resolves_to(ctx, fi, n, NODE_Q + ".delete_node_instance")
+            if tg0:
+                am = w.arg_map(tg0, n)
                 a = am.get("id")
                 own = _id_owner(a) if a is not None else None
                 ch = am.get("children")
-                keep_children = not (isinstance(ch, ast.Constant) and ch.value is False)
-                out.append((n, own, keep_children))
+                out.append((n, own, not (isinstance(ch, ast.Constant) and ch.value is False)))
+                continue
+            for tg in w.resolve_call(ft, n):
+                if tg.func is None or tg.kind == "class" or tg.func.qname == fi.qname:
+                    continue
+                am = w.arg_map(tg, n)
+                for e in fx.tree_effects(tg.func):
+                    if e[0] == "unreg":
+                        p = _path(am.get(e[1])) if am.get(e[1]) is not None else None
+                        if p and not any(x[0] is n and x[1] == p for x in out):
+                            out.append((n, p, True))
+                    elif e[0] == "unreg_id":
+                        a = am.get(e[1])
+                        own = _id_owner(a) if a is not None else None
+                        if own and not any(x[0] is n and x[1] == own for x in out):
+                            out.append((n, own, True))
     return out
 
 
@@ -208,6 +259,9 @@ def rule_r3_r4(ctx, rep):
         for (dn, x, how) in discards:
             rep.count("discard sites")
             mine = [d for (d, own, keep) in deletes if own == x]
+            if any(d is dn for d in mine):
+                rep.oblige(("R3", fi.qname, norm(dn)), True)
+                continue  # one helper call both detaches and unregisters the node
             if not mine:
                 rep.oblige(("R3", fi.qname, norm(dn)), False)
                 rep.add("R3", fi.qname, dn, f"`{x}` is discarded from the tree here but never unregistered: it stays retrievable by id", fi.loc(dn))
@@ -245,6 +299,9 @@ def rule_r3_r4(ctx, rep):
                 rep.oblige(("R4", fi.qname, norm(d)), False)
                 rep.add("R4", fi.qname, d, "cannot tell which node is unregistered here (argument is not `<node>.id`)", fi.loc(d))
                 continue
+            if any(dn is d and x == own for (dn, x, how) in discards):
+                rep.oblige(("R4", fi.qname, norm(d)), True)
+                continue
             dom = MarkDomain()
             for (dn, x, how) in discards:
                 if x == own:
@@ -267,8 +324,38 @@ def rule_r3_r4(ctx, rep):
             if not ok:
                 rep.add("R4", fi.qname, d, f"`{own}` is unregistered while it may still be in the tree: no detachment of `{own}` (or proof that it "
                         f"has no parent) precedes this call on every path", fi.loc(d))
-    rep.floor("discard sites", 5)
-    rep.floor("unregistration sites", 5)
+    rep.floor("discard sites", 3)
+    rep.floor("unregistration sites", 3)
+
+
+def rule_r6(ctx, rep):
+    """who may unregister: only delete-by-id and the operations documented to discard nodes (replace with deletion, prune,
+    reference expansion), plus private helpers that only they call.  In particular plain detaching (remove_child), whose caller
+    keeps the node and may re-attach it, must not unregister."""
+    from ..treefx import TreeFx
+    w = ctx.world
+    fx = ctx.get("treefx", lambda: TreeFx(w))
+    allowed = set(DISCARDERS) | {NODE_Q + ".delete_node_instance"}
+    funcs = list(lib_funcs(ctx))
+    unreg = {f.qname: f for f in funcs if any(e[0].startswith("unreg") for e in fx.tree_effects(f))}
+    callers = {}
+    for f in funcs:
+        ft = w.types(f)
+        for n in ast.walk(f.node):
+            if isinstance(n, ast.Call):
+                for tg in w.resolve_call(ft, n):
+                    if tg.func is not None and tg.func.qname in unreg and tg.func.qname != f.qname:
+                        callers.setdefault(tg.func.qname, set()).add(f.qname)
+    for q, f in sorted(unreg.items()):
+        rep.count("functions that may unregister nodes")
+        private = f.name.startswith("_") and not f.name.startswith("__")
+        ok = q in allowed or (private and callers.get(q) and callers[q] <= set(unreg))
+        rep.oblige(("R6", q), ok, sample={"may unregister": q.split("metapype.")[-1], "documented discarder or private helper of one": ok})
+        if not ok:
+            rep.add("R6", q, "unregisters nodes", f"{f.name} unregisters nodes although it is not one of the operations documented to discard them "
+                    f"(delete by id, replace with deletion, prune, expand): a node that is merely detached -- and may be re-attached -- "
+                    f"disappears from the registry while it is still in a tree", f.loc())
+    rep.floor("functions that may unregister nodes", 4)
 
 
 def rule_r5(ctx, rep):
@@ -335,7 +422,7 @@ def run(ctx, rep):
         "_id and the registry written only by their owners (effect analysis), every discard in prune / expand / replace_child "
         "paired on all paths with the unregistration of the same node (children included), every unregistration preceded by the "
         "detachment of that node or the no-parent outcome, and delete_node_instance removes exactly its key plus the subtree")
-    rep.rules_run = ["R1", "R2", "R3", "R4", "R5"]
+    rep.rules_run = ["R1", "R2", "R3", "R4", "R5", "R6"]
     rep.assumptions += ["NOT decided: uuid1 uniqueness", "copy() registration is C12-R3"]
     only = getattr(rep, "only", None)
     if only in (None, "R1", "R2"):
@@ -344,3 +431,5 @@ def run(ctx, rep):
         rule_r3_r4(ctx, rep)
     if only in (None, "R5"):
         rule_r5(ctx, rep)
+    if only in (None, "R6"):
+        rule_r6(ctx, rep)
